@@ -445,7 +445,7 @@ class ExprMixin:
                 if isinstance(a, Opaque) or isinstance(b, Opaque):
                     o = a if isinstance(a, Opaque) else b
                     x = b if isinstance(a, Opaque) else a
-                    if o.kind == 'str' and isinstance(x, (str, FStr)):
+                    if (o.kind == 'str' or o.kind in getattr(self.registry, 'maybe_str_kinds', ())) and isinstance(x, (str, FStr)):
                         # an opaque string against a known one: equality of their images under the (injective) embedding
                         # of strings into opaque values -- undetermined unless something else is known about `o`
                         return o.term == self.as_u_term(x, st)
